@@ -42,6 +42,47 @@ Proof.
   - intros j0 [<-|Hj]; auto. intro L. rewrite L in H1. rewrite (drop_link_done _ _ _ H1 eq_refl) in C. discriminate.
 Qed.
 
+(* a block whose job is dropped after it has been completed (detached by the parser) is freed *)
+Lemma drop_link_gone id us : (forall u, In u us -> u_id u = id -> u_complete u = true) ->
+  forall u, In u (drop_link (Some id) us) -> u_id u <> id.
+Proof.
+  intros HC u Hu E. unfold drop_link in Hu. destruct (get_unord id us) as [u1|] eqn:G.
+  - destruct (get_unord_some _ _ _ G) as [H1 E1]. rewrite (HC u1 H1 E1) in Hu.
+    unfold del_unord in Hu. apply filter_In in Hu. destruct Hu as [_ K]. rewrite E, N.eqb_refl in K. discriminate.
+  - eapply get_unord_none; eauto.
+Qed.
+
+Lemma drop_link_ids l us u : In u (drop_link l us) -> exists u0, In u0 us /\ u_id u0 = u_id u /\ (u_complete u0 = true -> u_complete u = true).
+Proof. intro Hu. destruct (drop_link_stems _ _ _ Hu) as (u0 & H0 & (S1 & _ & _ & _ & _ & S6)). exists u0. auto. Qed.
+
+Lemma drop_links_gone js us id j : (forall u, In u us -> u_id u = id -> u_complete u = true) ->
+  In j js -> r_link j = Some id -> forall u, In u (drop_links js us) -> u_id u <> id.
+Proof.
+  unfold drop_links. revert us. induction js as [|a r IH]; simpl; intros us HC Hj L u Hu; [tauto|].
+  assert (HC' : forall v, In v (drop_link (r_link a) us) -> u_id v = id -> u_complete v = true).
+  { intros v Hv Ev. destruct (drop_link_ids _ _ _ Hv) as (v0 & H0 & E0 & C0). apply C0. apply HC; auto. congruence. }
+  destruct Hj as [->|Hj].
+  - rewrite L in *. assert (NO : forall v, In v (drop_link (Some id) us) -> u_id v <> id) by (apply drop_link_gone; auto).
+    clear - NO Hu. revert NO Hu. generalize (drop_link (Some id) us) as l. induction r as [|b r IH]; simpl; intros l NO Hu; auto.
+    apply (IH (drop_link (r_link b) l)); auto. intros v Hv. destruct (drop_link_ids _ _ _ Hv) as (v0 & H0 & E0 & _). rewrite <- E0. auto.
+  - eapply IH; eauto.
+Qed.
+
+Lemma discard_below_spec2 p us u : In u (discard_below p us) ->
+  exists u0, In u0 us /\ (u = u0 \/ (u_inq u0 = true /\ u_complete u0 = false /\ u = u_detach false u0)).
+Proof.
+  unfold discard_below. rewrite in_map_iff. intros (u0 & E & H0). apply filter_In in H0. destruct H0 as [H0 _].
+  exists u0. split; auto. destruct (u_inq u0 && pos_lt (u_base u0) p && negb (u_complete u0)) eqn:K; auto.
+  right. bool_hyps. auto.
+Qed.
+
+Lemma flush_unords_spec2 us u : In u (flush_unords us) ->
+  exists u0, In u0 us /\ ((u_inq u0 = false /\ u = u0) \/ (u_inq u0 = true /\ u_complete u0 = false /\ u = u_detach false u0)).
+Proof.
+  unfold flush_unords. rewrite in_map_iff. intros (u0 & E & H0). apply filter_In in H0. destruct H0 as [H0 K].
+  exists u0. split; auto. destruct (u_inq u0) eqn:Q; auto. right. simpl in K. bool_hyps. auto.
+Qed.
+
 (* ---- which jobs advance() drops ------------------------------------------------------------ *)
 Lemma adv_retr_part fuel hd q j : In j q -> In j (fst (adv_retr fuel hd q)) \/ In j (snd (adv_retr fuel hd q)).
 Proof.
@@ -82,7 +123,7 @@ Lemma ownp_advance cfg bs st H J0 :
      (forall u, In u (x_unords (advance cfg bs st)) -> u_inq u = true -> u_complete u = true ->
         la (advance cfg bs st) (fst (u_base u)) 0 \/ fst (u_base u) < B)).
 Proof.
-  intros CA IV M0 HD OKB PD MONO NXB MB SEP [A B C D E F G K].
+  intros CA IV M0 HD OKB PD MONO NXB MB SEP [A B C D E F G K U3].
   destruct (inv_advance cfg bs st IV M0 HD) as (I3 & M3 & H3a & H3b & ST & RP).
   destruct (adv_fields cfg bs st) as [EH EU]. cbv zeta in EH, EU. rewrite CA in EU.
   pose proof (adv_retr_q cfg bs st) as ER.
@@ -137,6 +178,14 @@ Proof.
   - rewrite PDn, PD. discriminate.
   - intros _. rewrite NX, PB. auto.
   - intros _. rewrite PB. auto.
+  - intros u Hu Qu. destruct (ST u Hu) as (u0 & H0 & (S1 & _ & _ & S4 & _)).
+    destruct (U3 u0 H0 ltac:(congruence)) as (j & J1 & J2). rewrite <- S1 in J2. exists j. split; auto.
+    apply in_app_or in J1. apply in_or_app. destruct J1 as [J1|J1]; auto. right.
+    unfold all_jobs in *. rewrite RU, ER. apply in_app_or in J1. apply in_or_app. destruct J1 as [J1|J1]; auto. left.
+    destruct (adv_retr_part (length (x_retr_q st)) (x_head_offs (adv_input (d_off bs) (set_parser_bs bs st))) (x_retr_q st) j J1) as [P|P]; auto.
+    exfalso. rewrite EU in Hu. refine (drop_links_gone (fst dk) (x_unords st) (u_id u) j _ P J2 u Hu eq_refl).
+    intros v Hv Ev. assert (v = u0) by (apply (nodup_id_unique (x_unords st)); auto; [apply IV|congruence]). subst v.
+    rewrite Forall_forall in UO. destruct (UO u0 H0) as (_ & O2 & _). apply O2. congruence.
 Qed.
 
 (* ---- small transfer lemmas --------------------------------------------------------------- *)
@@ -155,30 +204,31 @@ Qed.
 
 (* the parser detaches or frees queued candidates *)
 Lemma ownp_detached H s us' :
-  (forall u, In u us' -> exists u0, In u0 (x_unords s) /\ (u = u0 \/ (u_inq u0 = true /\ u = u_detach false u0))) ->
+  (forall u, In u us' -> exists u0, In u0 (x_unords s) /\ (u = u0 \/ (u_inq u0 = true /\ u_complete u0 = false /\ u = u_detach false u0))) ->
   masters s = 0%nat -> masters (set_unords us' s) = 0%nat -> x_parsing_done s = false ->
   ownp H (all_jobs s) s ->
   ownp H (all_jobs (set_unords us' s)) (set_unords us' s) /\
   (forall B, (forall u, In u (x_unords s) -> u_inq u = true -> u_complete u = true -> la s (fst (u_base u)) 0 \/ fst (u_base u) < B) ->
      (forall u, In u us' -> u_inq u = true -> u_complete u = true -> la (set_unords us' s) (fst (u_base u)) 0 \/ fst (u_base u) < B)).
 Proof.
-  intros ST M0 M1 PD [A B C D E F G K].
+  intros ST M0 M1 PD [A B C D E F G K U3].
   assert (AJ : all_jobs (set_unords us' s) = all_jobs s) by (unfold all_jobs; xs; reflexivity).
   assert (LA : forall b k, la (set_unords us' s) b k <-> la s b k) by (intros; apply la_ext; unfold estage; xs; reflexivity).
   assert (OB : forall B, (forall u, In u (x_unords s) -> u_inq u = true -> u_complete u = true -> la s (fst (u_base u)) 0 \/ fst (u_base u) < B) ->
      (forall u, In u us' -> u_inq u = true -> u_complete u = true -> la (set_unords us' s) (fst (u_base u)) 0 \/ fst (u_base u) < B)).
-  { intros Bd OLD u Hu Qu Cu. destruct (ST u Hu) as (u0 & H0 & [->|[_ ->]]); [|simpl in Qu; discriminate].
+  { intros Bd OLD u Hu Qu Cu. destruct (ST u Hu) as (u0 & H0 & [->|(_ & _ & ->)]); [|simpl in Qu; discriminate].
     destruct (OLD u0 H0 Qu Cu) as [L|L]; [left; apply LA; auto|right; auto]. }
   split; [|exact OB]. rewrite AJ.
   constructor; xs.
   - intros h Hh. destruct (A h Hh) as [[_ MS]|L]; [exfalso; exact (no_masters_mastered s _ M0 MS)|right; apply LA; auto].
   - intros o Ho S. apply LA. auto.
   - intros j Hj J. exfalso. rewrite <- AJ in Hj. pose proof (no_masters_jm _ j M1 Hj) as Z. xs in Z. congruence.
-  - intros u Hu Cu. destruct (ST u Hu) as (u0 & H0 & [->|[_ ->]]); [auto|simpl in Cu; discriminate].
+  - intros u Hu Cu. destruct (ST u Hu) as (u0 & H0 & [->|(_ & _ & ->)]); [auto|simpl in Cu; discriminate].
   - intros u Hu Qu Cu. apply (OB (d_bit (x_parser_bs s) + HDR_MIN)); auto.
   - rewrite PD. discriminate.
   - exact G.
   - exact K.
+  - intros u Hu Qu. destruct (ST u Hu) as (u0 & H0 & [->|(Q0 & C0 & ->)]); [auto|]. simpl. apply D; auto.
 Qed.
 
 (* ---- do_parse: end of input ------------------------------------------------------------------ *)
@@ -200,11 +250,12 @@ Proof.
   assert (UR : Forall (fun u => u_inq u = false) (x_unords r0)).
   { subst r0. xs; autorewrite with xf; xs. apply flush_noinq. }
   assert (ER : x_emit_q r0 = x_emit_q s /\ x_running r0 = x_running s /\ x_reord_q r0 = x_reord_q s /\
-               x_order_q r0 = x_order_q s /\ x_parsing_done r0 = true /\ x_next r0 = x_next s).
+               x_order_q r0 = x_order_q s /\ x_parsing_done r0 = true /\ x_next r0 = x_next s /\ x_retr_q r0 = [] /\
+               x_unords r0 = flush_unords (drop_links (x_retr_q s) (x_unords s))).
   { subst r0. xs; autorewrite with xf; xs. auto 10. }
-  destruct ER as (E1 & E2 & E3 & E4 & E5 & E6).
+  destruct ER as (E1 & E2 & E3 & E4 & E5 & E6 & E7 & E8).
   assert (LA : forall b k, la r0 b k <-> la s b k) by (intros; apply la_ext; unfold estage; congruence).
-  clearbody r0. destruct I as [A B C D E F G K].
+  clearbody r0. destruct I as [A B C D E F G K U3].
   split.
   - rewrite E4. constructor.
     + intros h Hh. destruct (A h Hh) as [[_ MS]|L]; [exfalso; exact (no_masters_mastered s _ M0 MS)|right; apply LA; auto].
@@ -216,6 +267,16 @@ Proof.
     + intros _. exact UR.
     + rewrite E5. discriminate.
     + rewrite E5. discriminate.
+    + intros u Hu _. rewrite E8 in Hu. destruct (flush_unords_spec2 _ _ Hu) as (u1 & H1 & [(Q1 & ->)|(Q1 & C1 & ->)]).
+      * destruct (drop_links_stems _ _ _ H1) as (u0 & H0 & (S1 & _ & _ & S4 & _)).
+        destruct (U3 u0 H0 ltac:(congruence)) as (j & J1 & J2). rewrite <- S1 in J2. exists j. split; auto.
+        unfold all_jobs in *. rewrite E7, E2. simpl. apply in_app_or in J1. destruct J1 as [J1|J1]; auto.
+        exfalso. refine (drop_links_gone (x_retr_q s) (x_unords s) (u_id u1) j _ J1 J2 u1 H1 eq_refl).
+        intros v Hv Ev. assert (v = u0) by (apply (nodup_id_unique (x_unords s)); auto; [apply IV|congruence]). subst v.
+        pose proof (i_unord _ IV) as UO. rewrite Forall_forall in UO. destruct (UO u0 H0) as (_ & O2 & _). apply O2. congruence.
+      * simpl. destruct (drop_links_complete _ _ _ H1 C1) as [H0 NO]. destruct (D u1 H0 C1) as (j & J1 & J2). exists j. split; auto.
+        unfold all_jobs in *. rewrite E7, E2. simpl. apply in_app_or in J1. destruct J1 as [J1|J1]; auto.
+        exfalso. exact (NO j J1 J2).
   - destruct S as [SA SB]. constructor; rewrite E4, ?E6; auto.
 Qed.
 
@@ -253,7 +314,7 @@ Proof.
   { apply discard_below_spec. } { apply nodup_discard. apply I1. }
   fold s2 in I2, M2.
   assert (M2' : masters s2 = 0%nat) by lia.
-  destruct (ownp_detached H0 s1 (discard_below p (x_unords s1)) (discard_below_spec p (x_unords s1)) M1 M2' PD1 OW1) as (OW2 & ORB2).
+  destruct (ownp_detached H0 s1 (discard_below p (x_unords s1)) (discard_below_spec2 p (x_unords s1)) M1 M2' PD1 OW1) as (OW2 & ORB2).
   specialize (ORB2 pb ORB1). fold s2 in OW2, ORB2.
   assert (E2 : nparse s2 = 0%nat /\ x_parse_token s2 = false /\ x_parsing_done s2 = false /\ x_parser_bs s2 = x_parser_bs s /\
                x_order_q s2 = H0 ++ [hnew] /\ x_next s2 = pb /\ x_unords s2 = discard_below p (x_unords s1))
@@ -272,7 +333,7 @@ Proof.
     assert (AJ : forall j, In j (all_jobs (set_retr_q (jn :: x_retr_q s2) s2)) <-> j = jn \/ In j (all_jobs s2)).
     { intro j. unfold all_jobs. xs. simpl. split; intros [X|X]; auto. }
     assert (LA : forall b k, la (set_retr_q (jn :: x_retr_q s2) s2) b k <-> la s2 b k) by (intros; apply la_ext; unfold estage; xs; reflexivity).
-    destruct OW2 as [A B C D E F G K].
+    destruct OW2 as [A B C D E F G K U3].
     constructor; xs.
     - intros h Hh. apply in_app_or in Hh. destruct Hh as [Hh|[<-|[]]].
       + right. apply LA. auto.
@@ -285,7 +346,8 @@ Proof.
     - intros u Hu Qu Cu. destruct (E u Hu Qu Cu) as [L|L]; [left; apply LA; auto|right; auto].
     - exact F.
     - exact G.
-    - exact K. }
+    - exact K.
+    - intros u Hu Qu. destruct (U3 u Hu Qu) as (j & J1 & J2). exists j. split; auto. apply AJ. auto. }
   destruct (qmin u_base pos_lt (unord_q s2)) as [u|] eqn:Q; [|exact NEW].
   destruct (pos_eq (u_base u) p) eqn:PE; [|exact NEW]. clear NEW.
   apply pos_eq_spec in PE. apply qmin_In in Q. unfold unord_q in Q. apply filter_In in Q. destruct Q as [Hu Qi].
@@ -335,7 +397,7 @@ Proof.
     { intro j. apply jm_stems; [|apply I3]. intros v Hv. exists v. split; [auto|apply stems_refl]. }
     split; [|apply SH; subst st'; unfold give_unit; xs; auto].
     replace (x_order_q st') with (H0 ++ [hnew]) by (subst st'; unfold give_unit; xs; auto).
-    rewrite AJ. destruct OW3 as [A B C D E F G K].
+    rewrite AJ. destruct OW3 as [A B C D E F G K U3].
     constructor.
     + intros h Hh. apply in_app_or in Hh. destruct Hh as [Hh|[<-|[]]]; right; apply LA.
       * destruct (A h Hh) as [[_ MS]|L]; auto. exfalso. exact (no_masters_mastered s3 _ M3 MS).
@@ -349,6 +411,7 @@ Proof.
     + replace (x_next st') with (x_next s3) by (subst st'; unfold give_unit; xs; auto).
       replace (x_parser_bs st') with (x_parser_bs s3) by (subst st'; unfold give_unit; xs; auto). intros _. apply G. auto.
     + replace (x_parser_bs st') with (x_parser_bs s3) by (subst st'; unfold give_unit; xs; auto). intros _. apply K. auto.
+    + intros v Hv Qv. apply U3; auto.
   - (* the candidate is still being retrieved: its job becomes the master *)
     destruct (o_u1 _ _ _ OW2 u Hu UC) as (jm0 & JA & JL).
     destruct (JOK jm0 JA JL) as (JB & JC). specialize (JC eq_refl).
@@ -371,7 +434,7 @@ Proof.
       destruct (u_id v0 =? u_id u); auto. simpl in Cv. destruct Cv; discriminate. }
     split; [|apply SH; subst st'; unfold give_unit; xs; auto].
     replace (x_order_q st') with (H0 ++ [hnew]) by (subst st'; unfold give_unit; xs; auto).
-    rewrite AJ. destruct OW3 as [A B C D E F G K].
+    rewrite AJ. destruct OW3 as [A B C D E F G K U3].
     constructor.
     + intros h Hh. apply in_app_or in Hh. destruct Hh as [Hh|[<-|[]]].
       * right. apply LA. destruct (A h Hh) as [[_ MS]|L]; auto. exfalso. exact (no_masters_mastered s3 _ M3 MS).
@@ -394,6 +457,10 @@ Proof.
     + replace (x_next st') with (x_next s3) by (subst st'; unfold give_unit; xs; auto).
       replace (x_parser_bs st') with (x_parser_bs s3) by (subst st'; unfold give_unit; xs; auto). intros _. apply G. auto.
     + replace (x_parser_bs st') with (x_parser_bs s3) by (subst st'; unfold give_unit; xs; auto). intros _. apply K. auto.
+    + intros v Hv Qv. rewrite US in Hv. unfold upd_unord in Hv. apply in_map_iff in Hv. destruct Hv as (v0 & <- & H0v).
+      destruct (u_id v0 =? u_id u) eqn:EV.
+      * exists jm0. split; [apply KEEP; auto|]. simpl. apply N.eqb_eq in EV. rewrite EV. exact JL.
+      * apply U3; auto.
 Qed.
 
 Lemma own_parse1 cfg att r st st' :
@@ -474,7 +541,7 @@ Proof.
     assert (OQ4 : x_order_q s4 = x_order_q s3) by (subst s4; xs; reflexivity).
     assert (US4 : x_unords s4 = x_unords s3) by (subst s4; xs; reflexivity).
     assert (OW4 : ownp (x_order_q s4) (all_jobs s4) s4).
-    { rewrite OQ4, AJ4. destruct OP3 as [A B C D E F G K].
+    { rewrite OQ4, AJ4. destruct OP3 as [A B C D E F G K U3].
       constructor; rewrite ?US4, ?PB4, ?PD4.
       - intros h Hh. destruct (A h Hh) as [[_ MS]|L]; [exfalso; exact (no_masters_mastered s3 _ M3 MS)|right; apply LA4; auto].
       - intros o Ho S. apply LA4. apply B; auto.
@@ -483,7 +550,8 @@ Proof.
       - intros u Hu Qu Cu. rewrite <- PB3. destruct (E u Hu Qu Cu) as [L|L]; [left; apply LA4; auto|right; auto].
       - discriminate.
       - intros _. rewrite NX4, PB4. apply N.le_refl.
-      - intros _. exact OKB. }
+      - intros _. exact OKB.
+      - exact U3. }
     assert (SRT4 : StronglySorted N.lt (map hb (x_order_q s4))) by (rewrite OQ4; apply OS3).
     assert (LTP4 : Forall (fun h => hb h < d_bit (x_parser_bs s4)) (x_order_q s4)) by (rewrite OQ4, OQ3, PB4; exact LTP).
     assert (ORB4 : forall u, In u (x_unords s4) -> u_inq u = true -> u_complete u = true ->
